@@ -60,7 +60,7 @@ class Ctx:
         cls = fn.cls.name if (fn is not None and fn.cls is not None) else ""
         method = fn.name if fn is not None else ""
         if construct is None:
-            construct = norm_stmt(node) if node is not None else ""
+            construct = norm_stmt(node, fn) if node is not None else ""
         if where is None:
             where = self.prog.loc(fn, node) if fn is not None else ""
         ob = Obligation(self.prop, rule, instance, status, where, cls, method, construct, detail)
